@@ -233,6 +233,61 @@ fn odd_ids(v: &Mutex<Vec<(String, String)>>) {
     check("LocalAssetCache", l.as_any_cache(), v);
 }
 
+/// The key is the TEXT of the id, not the storage the caller keeps it in: ids that follow each other
+/// in one reused buffer (same address, same length, other contents) name different entries.
+fn id_buffer_reuse(v: &Mutex<Vec<(String, String)>>) {
+    fn check<'a>(label: &str, any: assets_manager::AnyCache<'a>, v: &Mutex<Vec<(String, String)>>) {
+        use std::fmt::Write;
+        let mut buf = String::with_capacity(16);
+        let mut seen: Vec<usize> = vec![];
+        for i in 0..40i64 {
+            buf.clear();
+            write!(buf, "k{:02}.{:02}", i / 7, i).unwrap();
+            let present_before = any.contains::<SVal>(&buf);
+            let cached_before = any.get_cached::<SVal>(&buf).map(|h| (h as *const _ as usize, h.read().0.n));
+            let h = any.get_or_insert::<SVal>(&buf, SVal(V::new(i, "buf")));
+            let (addr, val, hid) = (h as *const _ as usize, h.read().0.n, h.id().to_string());
+            if present_before || cached_before.is_some() || val != i || hid != buf || seen.contains(&addr) {
+                violation(v, "presence-flipped", format!("{label}: ids written one after the other into one reused String: before inserting {buf:?}: contains = {present_before}, get_cached = {cached_before:x?}; get_or_insert({buf:?}, {i}) = {addr:#x} holding {val} with id {hid:?}{}", if seen.contains(&addr) { " (the handle of an earlier id)" } else { "" }));
+                return;
+            }
+            seen.push(addr);
+            // the same text from another buffer finds it; the previous text is still there
+            let other = buf.clone();
+            if any.get_cached::<SVal>(&other).map(|h| h as *const _ as usize) != Some(addr) {
+                violation(v, "presence-flipped", format!("{label}: {other:?} inserted from one buffer is not found from another"));
+                return;
+            }
+            // the last look-up of this round is a successful one from the reused buffer itself
+            if any.get_cached::<SVal>(&buf).map(|h| h as *const _ as usize) != Some(addr) {
+                violation(v, "presence-flipped", format!("{label}: {buf:?} is not found right after its insertion"));
+                return;
+            }
+        }
+    }
+    let c = AssetCache::without_hot_reloading(Mem::new(false));
+    check("AssetCache", c.as_any_cache(), v);
+    let l = assets_manager::LocalAssetCache::with_source(Mem::new(false));
+    check("LocalAssetCache", l.as_any_cache(), v);
+    // directly on the LocalAssetCache (not through its AnyCache view)
+    let l = assets_manager::LocalAssetCache::with_source(Mem::new(false));
+    let mut buf = String::with_capacity(8);
+    for i in 0..20i64 {
+        use std::fmt::Write;
+        buf.clear();
+        write!(buf, "z.{:02}", i).unwrap();
+        if l.contains::<SVal>(&buf) || l.get_cached::<SVal>(&buf).is_some() {
+            violation(v, "presence-flipped", format!("LocalAssetCache: {buf:?} was never inserted but is reported present (the id before it in the same buffer was)"));
+            break;
+        }
+        let n = l.get_or_insert::<SVal>(&buf, SVal(V::new(i, "buf"))).read().0.n;
+        if n != i || l.get_cached::<SVal>(&buf).map(|h| h.read().0.n) != Some(i) {
+            violation(v, "presence-flipped", format!("LocalAssetCache: get_or_insert({buf:?}, {i}) holds {n}"));
+            break;
+        }
+    }
+}
+
 /// Presence is not disturbed by operations that name other keys: after removals / takes of keys
 /// that are absent (and of one that is present), every other entry is still there, at its address,
 /// for every thread.
@@ -367,6 +422,8 @@ pub fn run(a: &Args) {
     }
     odd_ids(&v);
     evals += 2;
+    id_buffer_reuse(&v);
+    evals += 3;
     if !only_reentrant {
         unrelated_removals(&v);
         evals += 2;
